@@ -38,7 +38,7 @@ try:
     meta["ran"].append(f"go test -run '{rx}' ./{pkg}/ (patched): rc={rc1}")
     for d in demos:
         os.remove(os.path.join(scratch, pkg, os.path.basename(d)))
-    rcs, outs = run("go test -vet=off -count=1 -timeout 600s ./cache/ ./server/ ./location/ ./compress/ ./util/ ./app/ && go test -vet=off -count=1 -skip 'TestEtcdClient|TestNewMongoStore|TestUpstreamServer|TestNewRedisStore' ./config/ ./upstream/ && flock /tmp/pike_store_test.lock go test -vet=off -count=1 -skip 'TestEtcdClient|TestNewMongoStore|TestUpstreamServer|TestNewRedisStore' ./store/")
+    rcs, outs = run("go test -vet=off -count=1 -timeout 600s ./cache/ ./server/ ./location/ ./compress/ ./util/ ./app/ && go test -vet=off -count=1 -skip 'TestEtcdClient|TestNewMongoStore|TestUpstreamServer|TestNewRedisStore' ./upstream/ && flock /tmp/pike_store_test.lock go test -vet=off -count=1 -skip 'TestEtcdClient|TestNewMongoStore|TestUpstreamServer|TestNewRedisStore' ./store/ ./config/")
     meta["baseline_suite_with_change"] = "PASS" if rcs == 0 else "FAIL"
     if rcs != 0:
         meta["baseline_output"] = outs[-1500:]
